@@ -153,8 +153,9 @@ class SpecEq(Job):
     `from_step`: compare only from that 1-based step on; `only_some`: compare only where the spec is defined."""
     kind = "spec_eq"
 
-    def __init__(self, e, xs, acc=False, only_some=False, mode="q", rel=None):
+    def __init__(self, e, xs, acc=False, only_some=False, mode="q", rel=None, hop=None):
         self.e, self.xs, self.acc, self.only_some, self.mode, self.rel = e, xs, acc, only_some, mode, rel
+        self.hop = hop   # implementation side only: clone the view after `hop` values and continue on the clone
 
     def ops(self):
         o = []
@@ -165,13 +166,15 @@ class SpecEq(Job):
         return o
 
     def impl_cases(self):
-        return [Case(self.mode, gen.render(self.e, self.mode), self.ops())]
+        ops = self.ops() if self.hop is None else hop_ops(self.ops(), self.hop)
+        return [Case(self.mode, gen.render(self.e, self.mode), ops)]
 
     def model_cases(self):
         return [Case(self.mode, spec_text(self.e, self.mode), self.ops(), target="spec")]
 
     def decide(self, impl, rel, model):
-        a, b = impl[0], model[0]
+        a, b = [l for l in impl[0] if not l.startswith("K")], model[0]
+        hopnote = "" if self.hop is None else " (the view was cloned after %d values and the clone continued)" % self.hop
         if any(l.startswith("bad") for l in b):
             return dict(explanation="spec driver rejected the case", expected=None, actual=b[:1], corr_only=True)
         for i in range(max(len(a), len(b))):
@@ -189,8 +192,8 @@ class SpecEq(Job):
                 okv = len(va) == len(vb) and all(close(dec(self.mode, x), dec(self.mode, y), 1, self.rel) for x, y in zip(va, vb))
             if not okv:
                 step = (i // 2 if self.acc else i) + 1
-                return dict(explanation="after %d values the implementation does not report what the definition gives for history %s"
-                            % (step, [str(x) for x in self.xs[:step]]), expected=lb, actual=la)
+                return dict(explanation="after %d values the implementation does not report what the definition gives for history %s%s"
+                            % (step, [str(x) for x in self.xs[:step]], hopnote), expected=lb, actual=la)
         return None
 
     def nontrivial_key(self, impl):
@@ -198,11 +201,11 @@ class SpecEq(Job):
 
     def to_json(self):
         return dict(kind=self.kind, e=jexpr(self.e), xs=jvals(self.xs), acc=self.acc, only_some=self.only_some, mode=self.mode,
-                    rel=self.rel)
+                    rel=self.rel, hop=self.hop)
 
     @staticmethod
     def from_json(d):
-        return SpecEq(uexpr(d["e"]), uvals(d["xs"]), d["acc"], d["only_some"], d.get("mode", "q"), d.get("rel"))
+        return SpecEq(uexpr(d["e"]), uvals(d["xs"]), d["acc"], d["only_some"], d.get("mode", "q"), d.get("rel"), d.get("hop"))
 
     def shrink_candidates(self):
         xs = self.xs
@@ -210,7 +213,10 @@ class SpecEq(Job):
         if len(xs) > 1:
             for cand in (xs[: len(xs) // 2], xs[:-1], xs[1:], [F(round(x)) for x in xs]):
                 if cand != xs:
-                    out.append(SpecEq(self.e, cand, self.acc, self.only_some, self.mode, self.rel))
+                    hop = self.hop if (self.hop is None or (cand is not xs[1:] and self.hop <= len(cand))) else None
+                    if cand == xs[1:] and self.hop:
+                        hop = self.hop - 1
+                    out.append(SpecEq(self.e, cand, self.acc, self.only_some, self.mode, self.rel, hop))
         return out
 
 
@@ -226,7 +232,9 @@ class Relation(Job):
         return self.es if self.es else [self.e] * len(self.streams)
 
     def impl_cases(self):
-        return [Case(self.mode, gen.render(e, self.mode), xs_ops(self.mode, xs)) for e, xs in zip(self.exprs(), self.streams)]
+        hop = self.params.get("hop")   # clone each view after `hop` values and continue on the clone (C17: nothing may change)
+        mk = (lambda o: o) if hop is None else (lambda o: hop_ops(o, hop))
+        return [Case(self.mode, gen.render(e, self.mode), mk(xs_ops(self.mode, xs))) for e, xs in zip(self.exprs(), self.streams)]
 
     def decide(self, impl, rel, model):
         outs = [outputs(self.mode, l) for l in impl]
